@@ -631,7 +631,7 @@ def enumerate_cases(tier):
     for name in ("tetra", "cube", "octa"):
         for shift in ([0.31, 0.27, 0.22], [0.45, -0.2, 0.13], [-0.28, 0.33, -0.19], [0.2, 0.41, 0.3]):
             for pattern in ("AB", "BA", "alt", "alt2"):
-                for sc in scales:
+                for sc in scales + ([6e9, 2e-12, 1e9, 1e-9] if pattern == "AB" else []):
                     cases.append({"part": "derived", "kind": "intersecting", "mesh": name, "shift": shift, "pattern": pattern,
                                   "flipmask": 0, "scale": sc})
     # interpenetrating parts that are small against the whole mesh; a coarse body pierced by a finely meshed one
